@@ -485,3 +485,6 @@ Theorem header_fixed_point h t h' : wf_header h -> write_header h = Some t ->
 Proof.
   intros W H R. rewrite (header_roundtrip h t W H) in R. apply Some_inj in R. now subst h'.
 Qed.
+
+Lemma nodup1 {A} (a : A) : NoDup [a].
+Proof. constructor; [intros []|constructor]. Qed.
